@@ -172,6 +172,10 @@ func PESHeader(packet *Packet) ([]byte, error) {
 // Header Returns a slice containing the Packer Header.
 func Header(packet *Packet) []byte {
 	start := payloadStart(packet)
+	if start > PacketSize {
+		// malformed adaptation_field_length: everything is header
+		start = PacketSize
+	}
 	return packet[:start]
 }
 
